@@ -116,17 +116,31 @@ class _AioServer:
         self.loop.call_soon_threadsafe(self.loop.stop)
         self._thread.join(10)
 
-    def raw(self, method, raw_target, headers, body):
-        """Send one HTTP/1.1 request with the target exactly as given."""
+    def raw(self, method, raw_target, headers, body, chunked=False):
+        """Send one HTTP/1.1 request with the target exactly as given.  chunked: the body travels
+        with Transfer-Encoding: chunked in pieces of uneven sizes instead of a Content-Length."""
         s = socket.create_connection(("127.0.0.1", self.port), timeout=60)
         try:
             lines = ["%s %s HTTP/1.1" % (method, raw_target), "Host: localhost", "Connection: close"]
             hdrs = list(headers)
-            if body is not None:
+            payload = body or b""
+            if body is not None and chunked:
+                hdrs.append(("Transfer-Encoding", "chunked"))
+                sizes = [1, 7, 3, 64, 2, 1000, 5, 16384]
+                out, pos, k = [], 0, 0
+                while pos < len(body):
+                    n = sizes[k % len(sizes)]
+                    piece = body[pos:pos + n]
+                    out.append(b"%x\r\n" % len(piece) + piece + b"\r\n")
+                    pos += n
+                    k += 1
+                out.append(b"0\r\n\r\n")
+                payload = b"".join(out)
+            elif body is not None:
                 hdrs.append(("Content-Length", str(len(body))))
             for k, v in hdrs:
                 lines.append("%s: %s" % (k, v))
-            data = ("\r\n".join(lines) + "\r\n\r\n").encode("iso-8859-1") + (body or b"")
+            data = ("\r\n".join(lines) + "\r\n\r\n").encode("iso-8859-1") + payload
             s.sendall(data)
             chunks = []
             while True:
@@ -244,7 +258,9 @@ class World:
     def raw(self, method, raw_target, headers=(), body=None):
         """Send a request whose target is exactly raw_target (already encoded)."""
         if self.frontend == "aiohttp":
-            return self._aio.raw(method, raw_target, headers, body)
+            chunked, self.chunked_next = getattr(self, "chunked_next", False), False
+            return self._aio.raw(method, raw_target, headers, body, chunked=chunked)
+        self.chunked_next = False
         return self._wsgi(method, raw_target, headers, body)
 
     def _wsgi(self, method, raw_target, headers, body):
